@@ -4,7 +4,7 @@
 From Coq Require Import List Bool ZArith Lia Arith.
 From Coq.Strings Require Import Byte.
 Import ListNotations.
-From Zap Require Import Base.Wire C05.Cores C05.CoreProofs C05.Sampling C05.SamplingProofs C05.Model.
+From Zap Require Import Base.Wire C05.Cores C05.CoreProofs C05.Sampling C05.SamplingProofs C05.Updates C05.UpdatesProofs C05.Model.
 Open Scope Z_scope.
 
 (* ---------------- induction over S-expressions ---------------- *)
@@ -123,7 +123,7 @@ Qed.
 
 Lemma spec_model_op obs ps st w c o : spec_op obs w c o (model_op obs ps st w c o) = true.
 Proof.
-  destruct o as [a v|f l|l| |n|]; cbn [spec_op model_op]; try reflexivity.
+  destruct o as [a v|f l|l| |n|k t|a r t|a|j]; cbn [spec_op model_op]; try reflexivity.
   - unfold sx_nth. cbn [sx_l nth].
     set (dec := counter_dec st ps l (msg_class f)).
     set (dec' := reported_drop (map (enc_report dec) (call_consulted dec w c f l))).
@@ -161,12 +161,26 @@ Proof.
     destruct (cells_in_range_b w c) eqn:R; [|reflexivity]. cbn [negb orb].
     apply Z.eqb_eq. apply level_exact_thm. apply cells_in_range_b_true. exact R.
   - unfold grpc_v. rewrite enabled_accepts. unfold of_bool, sx_bool, sx_z. destruct (accepts w c (grpc_level n)); reflexivity.
+  - (* an update by a route: the code's parse is the specification's *)
+    unfold sx_nth. cbn [sx_l nth sx_z]. rewrite sx_bool_of_bool. unfold apply_upd.
+    rewrite !spec_apply_upd_eq, (upd_value_spec r t), eqb_reflx, !Z.eqb_refl. reflexivity.
+  - cbn [sx_z]. apply Z.eqb_refl.
 Qed.
 
-Lemma spec_model_ops obs ps ops : forall st w c, spec_ops obs w c ops (model_ops obs ps st w c ops) = true.
+(* the model's and the oracle's state transitions agree, up to the values of the cells *)
+Lemma next_state_spec w c cs o :
+  next_state spec_increase_ok spec_upd_value w c cs o = next_state increase_ok upd_value w c cs o.
 Proof.
-  induction ops as [|o r IH]; intros st w c; [reflexivity|]. cbn [spec_ops model_ops].
-  rewrite spec_model_op. cbn [andb]. destruct (next_state w c o) as [w' c']. apply IH.
+  destruct o as [a v|f l|l| |n|k t|a r t|a|j]; cbn [next_state]; try reflexivity.
+  - unfold derive. rewrite <- spec_increase_ok_eq. reflexivity.
+  - rewrite upd_value_spec. reflexivity.
+Qed.
+
+Lemma spec_model_ops obs ps ops : forall st w c cs, spec_ops obs w c cs ops (model_ops obs ps st w c cs ops) = true.
+Proof.
+  induction ops as [|o r IH]; intros st w c cs; [reflexivity|]. cbn [spec_ops model_ops].
+  rewrite spec_model_op. cbn [andb]. rewrite next_state_spec.
+  destruct (next_state increase_ok upd_value w c cs o) as [[w' c'] cs']. apply IH.
 Qed.
 
 Theorem spec_model i : spec i (model i) = true.
